@@ -48,8 +48,14 @@ pub struct RqCfg {
 
 impl RqCfg {
     pub fn json(&self) -> Value {
+        let cln: i64 = match self.framing.as_str() {
+            "cl0" => 0,
+            "cl2" => 2,
+            f if f.starts_with("cl:") => f[3..].parse().unwrap_or(-1),
+            _ => -1,
+        };
         json!({"method": self.method, "ver10": self.ver10, "expect": self.expect, "connclose": self.connclose,
-               "despite": self.despite, "framing": self.framing})
+               "despite": self.despite, "framing": self.framing, "cln": cln})
     }
     pub fn request(&self) -> Request<()> {
         let mut b = Request::builder()
@@ -488,7 +494,11 @@ impl Sim {
             let r = guarded(|| f.try_response(&input));
             let ready = guarded(|| f.can_proceed());
             let mut e = json!({"kind":kind,"mlen":mlen,"w":input.len()});
-            if kind == "final" {
+            // a late 100 offered together with the complete final head: the code may skip the 100 and hand out the
+            // response in the same call (hlen = length of that head, 0 if the 100 was offered alone)
+            let together = kind == "late100" && input.len() > mlen && fin_cfg.is_some();
+            e["hlen"] = json!(if together { input.len() - mlen } else { 0 });
+            if kind == "final" || together {
                 let fc = fin_cfg.as_ref().unwrap();
                 e["cell"] = fc.cell(&self.rq.method);
                 e["connclose"] = json!(fc.connclose());
@@ -504,6 +514,10 @@ impl Sim {
                     }
                     if kind == "late100" && n > 0 && resp.is_none() {
                         self.took100 = true;
+                    }
+                    if together && resp.as_ref().map(|r| r.status().as_u16() != 100).unwrap_or(false) {
+                        self.took100 = true;
+                        self.final_seen = true;
                     }
                     if kind == "final" && resp.is_some() {
                         self.final_seen = true;
@@ -601,7 +615,14 @@ impl Sim {
             _ => return,
         };
         match r {
-            Some((mc, reason)) => ev_call(t, st, "verdict", json!({"must_close": mc, "reason": reason.unwrap_or("")})),
+            Some((mc, reason)) => {
+                // which documented condition the text names: the five texts of today, possibly with a tail appended
+                let text = reason.unwrap_or("");
+                let rfact = [("version is http1.0", "Http10"), ("client sent Connection: close", "ClientClose"), ("server sent Connection: close", "ServerClose"),
+                             ("got non-100 response before sending body", "Not100"), ("response body is close delimited", "CloseDelimited")]
+                    .iter().find(|(p, _)| text.starts_with(p)).map(|x| x.1).unwrap_or("unknown");
+                ev_call(t, st, "verdict", json!({"must_close": mc, "reason": text, "rfact": rfact}))
+            }
             None => self.panic(t, "must_close_connection"),
         }
     }
@@ -611,8 +632,35 @@ impl Sim {
         self.calls += 1;
         if let FlowBox::Redirect(f) = &mut self.fb {
             let pol = if same_host { ureq_proto::client::flow::RedirectAuthHeaders::SameHost } else { ureq_proto::client::flow::RedirectAuthHeaders::Never };
-            match guarded(|| f.as_new_flow(pol).map(|x| x.map(|nf| (nf.method().to_string(), nf.uri().to_string())))) {
-                Some(Ok(Some((m, u)))) => ev_call(t, "Redirect", "new_flow", json!({"res":"flow","method":m,"uri":u})),
+            match guarded(|| f.as_new_flow(pol)) {
+                Some(Ok(Some(nf))) => {
+                    let (m, u) = (nf.method().to_string(), nf.uri().to_string());
+                    // "a flow that advanced is fully usable": the new flow must be able to send its request, and so
+                    // must the flow of a further redirect
+                    let mut usable = "yes".to_string();
+                    match crate::fx::to_recv_response(nf) {
+                        None => usable = "the redirected request cannot be sent".into(),
+                        Some(mut rr) => {
+                            let head = b"HTTP/1.1 302 Found\r\nLocation: /again\r\nContent-Length: 0\r\n\r\n";
+                            let second = match guarded(|| rr.try_response(head)) {
+                                Some(Ok((_, Some(_)))) => match guarded(|| rr.proceed()) {
+                                    Some(Some(RecvResponseResult::Redirect(mut r2))) => guarded(|| r2.as_new_flow(pol)),
+                                    _ => None,
+                                },
+                                _ => None,
+                            };
+                            match second {
+                                Some(Ok(Some(nf2))) => {
+                                    if crate::fx::to_recv_response(nf2).is_none() {
+                                        usable = "the request of a second redirect cannot be sent".into();
+                                    }
+                                }
+                                _ => usable = "a second redirect on the new flow could not be followed".into(),
+                            }
+                        }
+                    }
+                    ev_call(t, "Redirect", "new_flow", json!({"res":"flow","method":m,"uri":u,"usable":usable}))
+                }
                 Some(Ok(None)) => ev_call(t, "Redirect", "new_flow", json!({"res":"none"})),
                 Some(Err(e)) => ev_call(t, "Redirect", "new_flow", json!({"res":"err","err":format!("{:?}", e)})),
                 None => self.panic(t, "as_new_flow"),
